@@ -15,10 +15,10 @@ MANIFEST = {
     'note': 'placeholder',
 }
 PROPERTY_FILES = ['Properties/C03.v']
-REFUTED_FILES = []
-MODEL_FILES = ['SF/BlocksOps.v']
+REFUTED_FILES = ['Refuted/C03.v']
+MODEL_FILES = ['SF/BlocksOps.v', 'SF/BlocksOpsVal.v']
 TRANSLATED = []
-IMPORTS = 'Require Import SF.Prelude SF.PySlice SF.Dtype SF.Value SF.Blocks SF.BlocksOps.'
+IMPORTS = 'Require Import SF.Prelude SF.PySlice SF.Dtype SF.Value SF.Blocks SF.BlocksOps SF.BlocksOpsVal.'
 RULE = 'placeholder'
 ASSUMPTIONS = []
 EXHAUSTIVE = {'quick': True, 'thorough': True}
@@ -161,15 +161,15 @@ def _csv(f, meth, **kw):
 
 def _sel(n, m):
     '''Selection keys (rows x columns) worth trying for an n x m frame: ints, slices of both directions, lists, masks.'''
-    rows = [None, 0, -1, slice(None), slice(0, 1), slice(1, None), slice(None, None, -1), [0], [n - 1, 0] if n else [], slice(0, 0)]
+    rows = [None, 0, [n - 1, 0] if n else [], -1, slice(None), slice(0, 1), slice(1, None), slice(None, None, -1), [0], slice(0, 0)]
     cols = [None, 0, -1, m - 1, slice(None), slice(0, 1), slice(1, 3), slice(1, None), slice(None, None, -1), slice(None, None, 2),
             slice(m, None, -2), slice(-1, -m - 1, -2),
             [0], [m - 1, 0] if m else [], list(range(m))[::-1], [i for i in range(m) if i % 2 == 0], list(range(1, m)) + [0] if m else [],
-            [True if i % 2 else False for i in range(m)], [i != 1 for i in range(m)], m, -m - 1, [m]]
+            np.array([bool(i % 2) for i in range(m)], dtype=bool), np.array([i != 1 for i in range(m)], dtype=bool), m, -m - 1, [m]]
     return rows, cols
 
 
-def ops_for(kinds, n):
+def ops_for(kinds, n, full=True):
     '''(name, fn(frame), weight) for every single-frame public operation exercised; fn may raise (the class is the observable).'''
     import static_frame as sf
     m = len(kinds)
@@ -198,17 +198,17 @@ def ops_for(kinds, n):
     add('transpose', lambda f: f.transpose())
     add('T.T', lambda f: f.T.T)
     for ax in (0, 1):
-        add(f'iter_array{ax}', lambda f, ax=ax: f.iter_array(ax))
-        add(f'iter_array_items{ax}', lambda f, ax=ax: f.iter_array_items(ax))
-        add(f'iter_series{ax}', lambda f, ax=ax: f.iter_series(ax))
-        add(f'iter_series_items{ax}', lambda f, ax=ax: f.iter_series_items(ax))
-        add(f'iter_tuple{ax}', lambda f, ax=ax: f.iter_tuple(ax))
-        add(f'iter_tuple_items{ax}', lambda f, ax=ax: f.iter_tuple_items(ax))
+        add(f'iter_array{ax}', lambda f, ax=ax: f.iter_array(axis=ax))
+        add(f'iter_array_items{ax}', lambda f, ax=ax: f.iter_array_items(axis=ax))
+        add(f'iter_series{ax}', lambda f, ax=ax: f.iter_series(axis=ax))
+        add(f'iter_series_items{ax}', lambda f, ax=ax: f.iter_series_items(axis=ax))
+        add(f'iter_tuple{ax}', lambda f, ax=ax: f.iter_tuple(axis=ax))
+        add(f'iter_tuple_items{ax}', lambda f, ax=ax: f.iter_tuple_items(axis=ax))
     add('iter_element', lambda f: f.iter_element())
     add('iter_element_items', lambda f: f.iter_element_items())
     add('iter_element.apply', lambda f: f.iter_element().apply(lambda x: (x, 1)))
-    add('iter_array1.apply', lambda f: f.iter_array(1).apply(lambda a: len(a)))
-    add('iter_series0.apply', lambda f: f.iter_series(0).apply(lambda s: s.values[0] if len(s) else None))
+    add('iter_array1.apply', lambda f: f.iter_array(axis=1).apply(lambda a: len(a)))
+    add('iter_series0.apply', lambda f: f.iter_series(axis=0).apply(lambda s: s.values[0] if len(s) else None))
     add('tb.axis_values0', lambda f: f._blocks.axis_values(0))
     add('tb.axis_values1', lambda f: f._blocks.axis_values(1))
     add('tb.axis_values0r', lambda f: f._blocks.axis_values(0, reverse=True))
@@ -223,9 +223,11 @@ def ops_for(kinds, n):
 
     # ---- positional selection
     rows, cols = _sel(n, m)
-    for rk in rows:
-        for ck in cols:
+    for ri, rk in enumerate(rows):
+        for ci, ck in enumerate(cols):
             if rk is None and ck is None:
+                continue
+            if not full and ri > 2 and ci not in (0, 1, 7):      # quick tier: every column key x 3 row keys, every row key x 3 column keys
                 continue
             if ck is None:
                 add(f'iloc[{rk!r}]', lambda f, rk=rk: f.iloc[rk])
@@ -289,7 +291,7 @@ def ops_for(kinds, n):
         add('astype[a](float)', lambda f: f.astype['a'](float))
         add('astype[last](object)', lambda f: f.astype[L[-1]](object))
         add('astype[b:](float)', lambda f: f.astype['b':](float))
-        add('astype[list](str)', lambda f: f.astype[[L[-1], L[0]]](str))
+        add('astype[list](str)', lambda f: f.astype[[L[-1], L[0]] if m > 1 else [L[0]]](str))
         add('astype[mask](object)', lambda f: f.astype[f.columns.values != 'b'](object))
         add('astype(dict)', lambda f: f.astype({L[-1]: object, 'a': float}))
         add('astype(seq)', lambda f: f.astype([object if j % 2 else float for j in range(m)]))
@@ -356,7 +358,7 @@ def ops_for(kinds, n):
         add('drop.iloc[:,1:3]', lambda f: f.drop.iloc[:, 1:3])
         add('drop.iloc[:,::-2]', lambda f: f.drop.iloc[:, ::-2])
         add('drop.iloc[0,[0]]', lambda f: f.drop.iloc[0, [0]])
-        add('drop.iloc[mask]', lambda f: f.drop.iloc[:, [j % 2 == 0 for j in range(m)]])
+        add('drop.iloc[mask]', lambda f: f.drop.iloc[:, np.array([j % 2 == 0 for j in range(m)], dtype=bool)])
         add('drop.iloc[0]', lambda f: f.drop.iloc[0])
         add('drop.iloc[-1:]', lambda f: f.drop.iloc[-1:])
         add('mask[a]', lambda f: f.mask['a'])
@@ -454,6 +456,546 @@ def _go_extend(f):
     return g, g.values
 
 
+
+# ----------------------------------------------------------------------------- known finding classes (by construction of the input)
+NUMERIC_KINDS = frozenset('ihgf')
+REDUCTIONS = ('sum', 'prod', 'min', 'max', 'mean', 'median', 'std', 'var', 'all', 'any', 'cumsum', 'cumprod')
+STRING_RESULT_OPS = frozenset(('op:mul-series', 'op:mul-array2d', 'op:mul2', 'op:addstr', 'astype(str)', 'astype[list](str)', 'via_str.upper'))
+FILL_OPS = frozenset(('fillna(str)', 'assign.bloc(frame)'))
+
+
+def op_family(name):
+    for r in REDUCTIONS:
+        if name.startswith(r) and name[len(r):len(r) + 1] in ('0', '1'):
+            return 'reduce' + name[len(r)]
+    for pre in ('iloc[', 'tb.extract_array', 'roll(', 'shift(', 'op:', 'astype', 'fillna', 'dropna', 'drop', 'mask', 'assign', 'iter_', 'sort_', 'reindex', 'relabel', 'tb.', 'loc[', 'getitem', 'to_'):
+        if name.startswith(pre):
+            return pre.rstrip('([.:')
+    return name
+
+
+def finding_for(name, kinds, n, layout):
+    """The known-finding class an input belongs to BY CONSTRUCTION (operation family x frame class x layout class), or None."""
+    m = len(kinds)
+    multi = any(w > 1 for w, _ in layout)
+    fam = op_family(name)
+    if fam == 'reduce0' and (n <= 1 or any(k not in NUMERIC_KINDS for k in kinds)):
+        return 'C03-reduce-axis0-blockwise'
+    if fam == 'reduce1' and name[:3] in ('all', 'any') and 'M' in kinds:
+        return 'C03-reduce-axis0-blockwise'
+    if name in ('bloc', 'bloc-eq') and multi and n >= 2:
+        return 'C03-bloc-order'
+    if name in FILL_OPS and multi:
+        return 'C03-fill-block-dtype'
+    if name in STRING_RESULT_OPS and multi and any(k in 'UO' for k in kinds):
+        return 'C03-str-itemsize'
+    if name.startswith('dropna1') and m == 1:
+        return 'C03-dropna-1d-block'
+    return None
+
+
+# ----------------------------------------------------------------------------- literals
+def col_cells(a):
+    return lit.vlist(lit.array_vals(a))
+
+
+def block_cols(b):
+    return [b] if b.ndim == 1 else [b[:, j] for j in range(b.shape[1])]
+
+
+def tb_lit(blocks):
+    """list of ndarray blocks -> `tb val` literal (dtype, 1-D flag, columns)."""
+    out = []
+    for b in blocks:
+        out.append(f'(@mk_block val {lit.dtype(b.dtype)} {lit.b(b.ndim == 1)} {lit.lst([col_cells(c) for c in block_cols(b)])})')
+    return lit.lst(out) if out else '(@nil (block val))'
+
+
+def cols_lit(arrays):
+    return lit.lst([f'({lit.dtype(a.dtype)}, ({col_cells(a)} : list val))' for a in arrays]) if len(arrays) else '(@nil (dtype * list val))'
+
+
+def frame_cols(f):
+    return [f._blocks._extract_array(None, j) for j in range(f.shape[1])]
+
+
+def res_lit(fn, printer):
+    try:
+        out = fn()
+    except Exception as e:  # noqa
+        return f'(Err {lit.s(lit.err_class(e))})', e
+    return f'(Ok {printer(out)})', out
+
+
+def short(o, limit=160):
+    t = repr(o)
+    return t if len(t) <= limit else t[:limit] + '...'
+
+
+# ----------------------------------------------------------------------------- frame spaces
+QUICK_KINDS = ['', 'i', 'f', 'U', 'O', 'b', 'ii', 'if', 'fO', 'UU', 'iii', 'iif', 'UUf', 'bbO', 'iiff', 'iUUi']
+THOROUGH_KINDS = QUICK_KINDS + ['bb', 'fii', 'iiii', 'ifif', 'OOii', 'M', 'h', 'OO', 'gg', 'hhi', 'MMi', 'ggi', 'bib', 'ffff', 'fiib', 'UUUU', 'hhgg',
+                                'iiiii', 'iifff', 'iUUUi', 'ffOOb', 'hhhgg', 'ifbUO', 'OOOOO']
+MODEL_KINDS = frozenset('ihgfbU')        # cells / conversions the Coq cell functions cover
+ALL_KINDS = 'ihgfbUOM'
+
+
+QUICK_FRAMES = [('', (0, 1, 3)), ('i', (0, 1, 3)), ('f', (0, 1, 3)), ('U', (0, 2)), ('O', (1, 3)), ('ii', (0, 1, 3)), ('if', (0, 1, 3)),
+                ('UU', (1, 3)), ('fO', (0, 2)), ('iii', (1, 3)), ('iif', (0, 2)), ('bbO', (1, 3)), ('iiff', (1, 3)), ('iUUi', (0, 2)),
+                ('iiii', (3,))]
+
+
+def frame_space(ctx):
+    if ctx.tier == 'quick':
+        for kinds, rows in QUICK_FRAMES:
+            for n in rows:
+                yield kinds, n
+    else:
+        for kinds in THOROUGH_KINDS:
+            for n in (0, 1, 2, 3, 4):
+                yield kinds, n
+    # random stream of other dtype mixes / sizes (all layouts of each)
+    for _ in range(ctx.n(2, 12)):
+        m = ctx.rng.randint(2, 3 if ctx.tier == 'quick' else 5)
+        kinds = ''
+        while len(kinds) < m:          # runs of equal kinds, so that multi-column blocks exist
+            k = ctx.rng.choice(ALL_KINDS)
+            kinds += k * ctx.rng.randint(1, m - len(kinds))
+        yield kinds, ctx.rng.choice((1, 2, 3, 5))
+
+
+def _isna_col(c):
+    if c.dtype.kind == 'f':
+        return np.isnan(c)
+    if c.dtype.kind == 'O':
+        return np.array([x is None or (isinstance(x, float) and x != x) for x in c], dtype=bool)
+    if c.dtype.kind in 'Mm':
+        return np.isnat(c)
+    return np.zeros(len(c), dtype=bool)
+
+
+def layouts(kinds, n):
+    cols = columns_for(kinds, n)
+    return list(zoo.layouts_for([c.dtype for c in cols]))
+
+
+# ----------------------------------------------------------------------------- strata
+def layout_cases(ctx, kinds, n):
+    """Metamorphic stratum: every operation on every layout against the same operation on the canonical layout."""
+    m = len(kinds)
+    canon = canonical_layout(m)
+    ops = ops_for(kinds, n, full=(ctx.tier != 'quick'))
+    fc = build(kinds, n, canon)
+    ref = {name: observe(fn, fc) for name, fn in ops}
+    for lay in layouts(kinds, n):
+        if lay == canon:
+            continue
+        f = build(kinds, n, lay)
+        if m and zoo.layout_of(f) != lay:
+            raise AssertionError(f'zoo built {zoo.layout_of(f)} instead of {lay}')
+        ls = zoo.layout_str(lay)
+        ctx.count(f'layout:m={m}', f'layout:blocks={len(lay)}', f'rows={n}')
+        for name, fn in ops:
+            o = observe(fn, f)
+            r = ref[name]
+            fam = op_family(name)
+            ctx.count('op:' + fam)
+            if o[0] == 'X':
+                ctx.count('err:' + o[1])
+            py_fail = None
+            if o != r:
+                py_fail = (f'{name} on layout {ls} gives {short(o)}; on the all-1-D layout of the same columns it gives {short(r)}')
+            tags = {'stratum': 'layout', 'family': fam}
+            fid = finding_for(name, kinds, n, lay)
+            if fid:
+                tags['finding'] = fid
+            yield Case('api:layout-vs-canonical',
+                       {'replay': f"from sfv.props.c03 import build, ops_for; dict(ops_for({kinds!r},{n}))[{name!r}](build({kinds!r},{n},{lay!r}))  # vs layout {canon!r}",
+                        'kinds': kinds, 'rows': n, 'layout': ls, 'op': name, 'observed': short(o, 100)},
+                       py_fail=py_fail, tags=tags, nontrivial=(r[0] != 'X'),
+                       key=f'L|{kinds}|{n}|{ls}|{name}')
+
+
+def _cell_obs(fn):
+    """A scalar read: (dtype-class tag, canonical value) or the error class."""
+    try:
+        v = fn()
+    except Exception as e:  # noqa
+        return ('X', lit.err_class(e))
+    return (type(v).__name__, _scalar(v))
+
+
+def readers_cases(ctx, kinds, n):
+    """Structural coherence and agreement of the read routes, per layout; the directory against the Coq model."""
+    import static_frame as sf
+    m = len(kinds)
+    cols = columns_for(kinds, n)
+    for lay in layouts(kinds, n):
+        f = build(kinds, n, lay)
+        ls = zoo.layout_str(lay)
+        ctx.count('readers')
+        problems = []
+        if f.shape != (len(f.index), len(f.columns)) or f.shape != (n, m):
+            problems.append(f'shape {f.shape} vs index {len(f.index)} columns {len(f.columns)}')
+        if f._blocks.shape != f.shape or f.values.shape != f.shape:
+            problems.append(f'blocks shape {f._blocks.shape}, values shape {f.values.shape}, frame shape {f.shape}')
+        if len(f._blocks._index) != m or len(f._blocks._dtypes) != m:
+            problems.append('directory length')
+        values = f.values
+        elements = list(f.iter_element())
+        element_items = dict(f.iter_element_items())
+        pairs0 = f.to_pairs(0)
+        pairs1 = f.to_pairs(1)
+        arrays0 = list(f.iter_array(axis=0))
+        arrays1 = list(f.iter_array(axis=1))
+        series0 = list(f.iter_series(axis=0))
+        tuples1 = list(f.iter_tuple(axis=1))
+        if len(elements) != n * m or len(arrays0) != m or len(arrays1) != n or len(pairs0) != m or len(pairs1) != n:
+            problems.append('iteration lengths')
+        for j in range(m):
+            want_dtype = cols[j].dtype
+            for got, route in ((arrays0[j].dtype, 'iter_array(0)'), (series0[j].dtype, 'iter_series(0)'), (f.iloc[:, j].dtype, 'iloc[:, j]'),
+                               (f[COL_LABELS[j]].dtype, 'f[label]'), (f.dtypes.values[j], 'dtypes'), (f._blocks._dtypes[j], '_dtypes')):
+                if got != want_dtype:
+                    problems.append(f'column {j}: {route} has dtype {got}, the column has {want_dtype}')
+            if pairs0[j][0] != COL_LABELS[j] or series0[j].name != COL_LABELS[j]:
+                problems.append(f'column {j}: label mismatch')
+            for i in range(n):
+                want = _scalar(cols[j][i])
+                own = {
+                    'iloc[i,j]': _cell_obs(lambda: f.iloc[i, j]),
+                    'loc[r,c]': _cell_obs(lambda: f.loc[ROW_LABELS[i], COL_LABELS[j]]),
+                    'iter_element': _cell_obs(lambda: elements[i * m + j]),
+                    'iter_element_items': _cell_obs(lambda: element_items[(ROW_LABELS[i], COL_LABELS[j])]),
+                    'iter_array(0)': _cell_obs(lambda: arrays0[j][i]),
+                    'iter_series(0)': _cell_obs(lambda: series0[j].values[i]),
+                    'iloc[:,j][i]': _cell_obs(lambda: f.iloc[:, j].values[i]),
+                    'to_pairs(0)': _cell_obs(lambda: pairs0[j][1][i][1]),
+                }
+                first = own['iloc[i,j]']
+                for route, got in own.items():
+                    if got[1] != want:
+                        problems.append(f'cell ({i},{j}) by {route} is {got}, the column holds {want}')
+                    elif got != first and kinds[j] not in 'O':
+                        problems.append(f'cell ({i},{j}): {route} gives class {got[0]}, iloc[i,j] gives {first[0]}')
+                # routes through the consolidated row (row dtype): same value under Python equality
+                for route, got in (('values', values[i, j]), ('iter_array(1)', arrays1[i][j]), ('iloc[i]', f.iloc[i].values[j]),
+                                   ('to_pairs(1)', pairs1[i][1][j][1]), ('iter_tuple(1)', tuples1[i][j])):
+                    a, b_ = got, cols[j][i]
+                    same = (a is b_) or (a == b_) or (a != a and b_ != b_)
+                    if a is None or b_ is None:
+                        same = a is b_
+                    if not same:
+                        problems.append(f'cell ({i},{j}) by {route} is {got!r}, the column holds {cols[j][i]!r}')
+        # the same reads through the Coq models: directory, columns, elements (including out-of-range probes)
+        T = tb_lit(f._blocks._blocks)
+        C = cols_lit(cols)
+        idx = lit.lst([f'({lit.z(a)}, {lit.z(b_)})' for a, b_ in f._blocks._index])
+        dts = lit.lst([lit.dtype(d) for d in f._blocks._dtypes])
+        obs_cols = cols_lit(list(f._blocks.axis_values(0)))
+        obs_cols_r = cols_lit(list(f._blocks.axis_values(0, reverse=True)))
+        probes = [(i, j) for i in range(-n - 1, n + 1) for j in range(-m - 1, m + 1)]
+        if len(probes) > 40:
+            probes = probes[:8] + ctx.rng.sample(probes[8:], 32)
+        m_terms, obs_terms = [], []
+        for i, j in probes:
+            txt, _ = res_lit(lambda: (f._blocks._dtypes[j], f._blocks._extract(i, j)),
+                             lambda p: f'({lit.dtype(p[0])}, {lit.val(p[1])})')
+            obs_terms.append(txt)
+            m_terms.append((i, j))
+        el_m = lit.lst([f'M_element {T} {lit.z(i)} {lit.z(j)}' for i, j in m_terms])
+        el_s = lit.lst([f'S_element {C} {lit.z(i)} {lit.z(j)}' for i, j in m_terms])
+        el_o = lit.lst(obs_terms)
+        m_term = (f'(list_eqb zpair_eqb (tb_index {T}) {idx}) && (list_eqb dtype_eqb (tb_dtypes {T}) {dts}) && '
+                  f'(tb_column_count {T} =? {lit.z(f._blocks._shape[1])}) && '
+                  f'(option_eqb columns_eqb (M_axis_values0 {T} false) (Some {obs_cols})) && '
+                  f'(option_eqb columns_eqb (M_axis_values0 {T} true) (Some {obs_cols_r})) && '
+                  f'(list_eqb (res_eqb dcell_eqb) {el_m} {el_o})')
+        s_term = (f'(columns_eqb (S_axis_values0 {C} false) {obs_cols}) && (columns_eqb (S_axis_values0 {C} true) {obs_cols_r}) && '
+                  f'(list_eqb (res_eqb dcell_eqb) {el_s} {el_o})')
+        yield Case('api:readers',
+                   {'replay': f"from sfv.props.c03 import build; f = build({kinds!r},{n},{lay!r}); f.values, f.iloc[i, j], f.iter_element(), f.to_pairs(0), f._blocks._index",
+                    'kinds': kinds, 'rows': n, 'layout': ls, 'probes': len(probes)},
+                   m=m_term, s=s_term, py_fail='; '.join(problems[:3]) or None,
+                   tags={'stratum': 'readers'}, nontrivial=(n > 0 and m > 0), key=f'R|{kinds}|{n}|{ls}')
+
+
+MAP_OPS = (
+    ('isna', 'cf_isna', lambda f: f.isna(), ALL_KINDS),
+    ('notna', 'cf_notna', lambda f: f.notna(), ALL_KINDS),
+    ('neg', 'cf_neg', lambda f: -f, 'ihgfbUM'),
+    ('abs', 'cf_abs', lambda f: abs(f), 'ihgfbU'),
+    ('invert', 'cf_invert', lambda f: ~f, 'ihgfbU'),
+    ('mul2', 'cf_mul2', lambda f: f * 2, 'ig'),
+)
+
+
+def model_cases(ctx, kinds, n):
+    """Modelled operations: the implementation's result BLOCKS against M on the observed input blocks (exact output layout),
+    its result columns against S on the logical columns."""
+    m = len(kinds)
+    cols = columns_for(kinds, n)
+    C = cols_lit(cols)
+    for lay in layouts(kinds, n):
+        f = build(kinds, n, lay)
+        ls = zoo.layout_str(lay)
+        T = tb_lit(f._blocks._blocks)
+        base = {'kinds': kinds, 'rows': n, 'layout': ls}
+        mk = lambda op: f"from sfv.props.c03 import build; f = build({kinds!r},{n},{lay!r}); {op}"
+        zero = (n == 0 or m == 0)
+
+        # ---- per-block cellwise maps
+        for name, cf, fn, ok_kinds in MAP_OPS:
+            if any(k not in ok_kinds for k in kinds):
+                continue
+            ctx.count('model:map')
+            o_tb, r = res_lit(lambda: fn(f), lambda g: tb_lit(g._blocks._blocks))
+            o_cols = o_tb if isinstance(r, Exception) else f'(Ok {cols_lit(frame_cols(r))})'
+            tags = {'stratum': 'model', 'op': name}
+            if m == 0:
+                tags['finding'] = 'C03-zero-columns'
+            yield Case('model:map_blocks', dict(base, replay=mk(f'{name}(f)._blocks._blocks'), op=name),
+                       m=f'res_eqb tb_eqb (M_map_blocks {cf} {T}) {o_tb}',
+                       s=f'res_eqb columns_eqb (S_map_columns {cf} {C}) {o_cols}',
+                       tags=tags, nontrivial=m > 0, key=f'M|{name}|{kinds}|{n}|{ls}')
+
+        # ---- consolidate
+        ctx.count('model:consolidate')
+        o_tb, r = res_lit(lambda: f._blocks.consolidate(), lambda t: tb_lit(t._blocks))
+        if isinstance(r, Exception):
+            o_cols, o_sig = o_tb, 'None'
+        else:
+            o_cols = f'(Ok {cols_lit([r._extract_array(None, j) for j in range(r.shape[1])])})'
+            o_sig = '(Some ' + lit.lst([f'({lit.dtype(b.dtype)}, {lit.lst([col_cells(c) for c in block_cols(b)])})' for b in r._blocks]) + ')'
+        tags = {'stratum': 'model', 'op': 'consolidate'}
+        if m == 0:
+            tags['finding'] = 'C03-zero-columns'
+        yield Case('model:consolidate', dict(base, replay=mk('f._blocks.consolidate()._blocks')),
+                   m=f'res_eqb tb_eqb (M_consolidate {T}) {o_tb}',
+                   s=(f'(res_eqb columns_eqb (Ok {C}) {o_cols}) && '
+                      f'(option_eqb (list_eqb sig_eqb) (Some (S_group_columns {C})) {o_sig})'),
+                   tags=tags, nontrivial=len(lay) > 1, key=f'M|cons|{kinds}|{n}|{ls}')
+
+        # ---- values, transpose (row dtype); only dtype mixes whose conversions the cell cast covers
+        if all(k in MODEL_KINDS for k in kinds):
+            ctx.count('model:values')
+            v = f.values
+            o_val = 'None' if m == 0 else f'(Some ({lit.dtype(v.dtype)}, {lit.lst([col_cells(v[:, j]) for j in range(m)])}))'
+            yield Case('model:values', dict(base, replay=mk('f.values')),
+                       m=f'option_eqb sig_eqb (M_values_v {T}) {o_val}', s=f'option_eqb sig_eqb (S_values_v {C}) {o_val}',
+                       tags={'stratum': 'model', 'op': 'values'}, nontrivial=len(set(kinds)) > 1, key=f'M|values|{kinds}|{n}|{ls}')
+            ctx.count('model:transpose')
+            o_tb, r = res_lit(lambda: f.transpose(), lambda g: tb_lit(g._blocks._blocks))
+            o_cols = o_tb if isinstance(r, Exception) else f'(Ok {cols_lit(frame_cols(r))})'
+            tags = {'stratum': 'model', 'op': 'transpose'}
+            if m == 0:
+                tags['finding'] = 'C03-zero-columns'
+            yield Case('model:transpose', dict(base, replay=mk('f.transpose()')),
+                       m=f'res_eqb tb_eqb (M_transpose_v {T} {n}%nat) {o_tb}',
+                       s=f'res_eqb columns_eqb (S_transpose_v {C} {n}%nat) {o_cols}',
+                       tags=tags, nontrivial=not zero, key=f'M|T|{kinds}|{n}|{ls}')
+
+        # ---- roll (wrap) over rows and columns
+        shifts = [(0, 1), (0, -1), (1, 0), (2, 1), (-1, 2), (0, m), (1, m + 1), (n, -m - 1), (0, 2), (-2, -2)]
+        for rs, cs in shifts:
+            ctx.count('model:roll')
+            o_tb, r = res_lit(lambda: f.roll(rs, cs), lambda g: tb_lit(g._blocks._blocks))
+            o_cols = o_tb if isinstance(r, Exception) else f'(Ok {cols_lit(frame_cols(r))})'
+            tags = {'stratum': 'model', 'op': 'roll'}
+            if zero:
+                tags['finding'] = 'C03-zero-size-roll'
+            yield Case('model:roll', dict(base, replay=mk(f'f.roll({rs},{cs})'), shift=[rs, cs]),
+                       m=f'res_eqb tb_eqb (M_roll {T} {n} {m} {lit.z(rs)} {lit.z(cs)} (roll_list {lit.z(rs)})) {o_tb}',
+                       s=f'res_eqb columns_eqb (Ok (S_roll {C} {n} {m} {lit.z(rs)} {lit.z(cs)} (roll_list {lit.z(rs)}))) {o_cols}',
+                       tags=tags, nontrivial=not zero and (cs % m != 0 or rs % n != 0), key=f'M|roll|{kinds}|{n}|{ls}|{rs}|{cs}')
+
+        # ---- fillna(value): decided per block (observable when the value does not fit: C03-fill-block-dtype)
+        multi = any(w > 1 for w, _ in lay)
+        if all(k in 'ihgfbUO' for k in kinds) and m:
+            for vname, value, vlit, vdt in (('0', 0, '(VInt 0)', '(DInt true 8)'), ("'q'", 'q', '(VStr "q")', '(DStr 1)')):
+                ctx.count('model:fillna')
+                o_tb, r = res_lit(lambda: f.fillna(value), lambda g: tb_lit(g._blocks._blocks))
+                o_cols = o_tb if isinstance(r, Exception) else f'(Ok {cols_lit(frame_cols(r))})'
+                tags = {'stratum': 'model', 'op': 'fillna'}
+                if multi and vname == "'q'":
+                    tags['finding'] = 'C03-fill-block-dtype'
+                yield Case('model:fillna', dict(base, replay=mk(f'f.fillna({vname})'), value=vname),
+                           m=f'res_eqb tb_eqb (Ok (M_fillna_v {vlit} {vdt} {T})) {o_tb}',
+                           s=f'res_eqb columns_eqb (Ok (S_fillna_v {vlit} {vdt} {C})) {o_cols}',
+                           tags=tags, nontrivial=any(k in 'fO' for k in kinds), key=f'M|fillna|{kinds}|{n}|{ls}|{vname}')
+
+        # ---- extract_bloc: order of the selected cells (C03-bloc-order), dropna(axis=1) keep mask (C03-dropna-1d-block)
+        if m:
+            for mname, mask in (('notna', np.column_stack([~_isna_col(c) for c in cols]) if n else np.empty((0, m), dtype=bool)),
+                                ('checker', np.array([[(i + j) % 2 == 0 for j in range(m)] for i in range(n)], dtype=bool).reshape(n, m))):
+                ctx.count('model:bloc')
+                coords, arr = f._blocks.extract_bloc(mask)
+                o = lit.lst([f'({lit.z(a)}, {lit.z(b_)})' for a, b_ in coords])
+                M = lit.lst([lit.lst([lit.b(x) for x in mask[:, j]]) for j in range(m)])
+                tags = {'stratum': 'model', 'op': 'bloc'}
+                if multi and n >= 2:
+                    tags['finding'] = 'C03-bloc-order'
+                yield Case('model:extract_bloc', dict(base, replay=mk(f'f._blocks.extract_bloc(mask {mname})'), mask=mname),
+                           m=f'list_eqb coord_eqb (map fst (M_bloc {T} {M} 0 {n}%nat)) {o}',
+                           s=f'list_eqb coord_eqb (map fst (S_bloc {C} {M})) {o}',
+                           tags=tags, nontrivial=bool(mask.sum() > 1), key=f'M|bloc|{kinds}|{n}|{ls}|{mname}')
+            if all(k in 'ihgfbUO' for k in kinds):
+                for cname, cond, ccoq in (('any', np.any, 'any_true'), ('all', np.all, 'all_true')):
+                    ctx.count('model:dropna')
+                    txt, r = res_lit(lambda: f._blocks.dropna_to_keep_locations(axis=1, condition=cond)[1], lambda a: lit.lst([lit.b(x) for x in a.tolist()]))
+                    tags = {'stratum': 'model', 'op': 'dropna'}
+                    if m == 1:
+                        tags['finding'] = 'C03-dropna-1d-block'
+                    yield Case('model:dropna_keep_columns', dict(base, replay=mk(f'f._blocks.dropna_to_keep_locations(axis=1, condition=np.{cname})'), condition=cname),
+                               m=f'res_eqb (list_eqb Bool.eqb) (Ok (M_dropna_keep_columns isna {ccoq} {T})) {txt}',
+                               s=f'res_eqb (list_eqb Bool.eqb) (Ok (S_dropna_keep_columns isna {ccoq} {C})) {txt}',
+                               tags=tags, nontrivial=any(k in 'fO' for k in kinds), key=f'M|dropna|{kinds}|{n}|{ls}|{cname}')
+
+        # ---- column selection through the blocks (coordinator's M_select_columns): exact result blocks
+        for ck in _sel(n, m)[1]:
+            if ck is None or (isinstance(ck, list) and len(set(ck)) != len(ck)):
+                continue
+            ctx.count('model:select')
+            if isinstance(ck, (int, np.integer)):
+                key = f'(CInt {lit.z(ck)})'
+            elif isinstance(ck, slice):
+                key = 'CAll' if ck == slice(None) else f'(CSlice {lit.slice_(ck)})'
+            elif isinstance(ck, np.ndarray):
+                key = f'(CMask {lit.lst([lit.b(x) for x in ck])})'
+            else:
+                key = f'(CList {lit.lst([lit.z(x) for x in ck])})'
+            o_tb, r = res_lit(lambda: f._blocks._extract(None, ck), lambda t: cols_lit([t._extract_array(None, j) for j in range(t.shape[1])]))
+            yield Case('model:select_columns', dict(base, replay=mk(f'f._blocks._extract(None, {ck!r})'), key=repr(ck)),
+                       m=f'res_eqb columns_eqb (res_map flatten (M_select_columns {T} {key})) {o_tb}',
+                       s=f'res_eqb columns_eqb (S_select_columns {C} {key}) {o_tb}',
+                       tags={'stratum': 'model', 'op': 'select'}, nontrivial=m > 1, key=f'M|sel|{kinds}|{n}|{ls}|{ck!r}')
+
+
+def append_cases(ctx, kinds, n):
+    """TypeBlocks.append / extend histories: the incrementally maintained directory against M_extend."""
+    from static_frame.core.type_blocks import TypeBlocks
+    m = len(kinds)
+    cols = columns_for(kinds, n)
+    for lay in layouts(kinds, n):
+        blocks = zoo.blocks_from_columns(cols, lay) if m else []
+        for cut in sorted({0, len(blocks) // 2, len(blocks)}):
+            ctx.count('kernel:append')
+            empty = np.empty((n, 0), dtype=np.int64)
+            rest = []
+            for k, b in enumerate(blocks[cut:]):
+                rest.append(b)
+                if k % 2 == 0:
+                    rest.append(empty)         # a zero-width array is accepted and ignored
+            tb = TypeBlocks.from_blocks(blocks[:cut], shape_reference=(n, 0)) if cut else TypeBlocks.from_zero_size_shape((n, 0))
+            T0 = tb_lit(tb._blocks)
+            tb.extend(rest[:len(rest) // 2])
+            for b in rest[len(rest) // 2:]:
+                tb.append(b)
+            idx = lit.lst([f'({lit.z(a)}, {lit.z(b_)})' for a, b_ in tb._index])
+            dts = lit.lst([lit.dtype(d) for d in tb._dtypes])
+            obs = f'(mk_state {tb_lit(tb._blocks)} {idx} {dts} {lit.z(tb._shape[1])})'
+            R = tb_lit(rest)
+            want = cols_lit(cols)
+            got = cols_lit([tb._extract_array(None, j) for j in range(tb.shape[1])])
+            yield Case('kernel:append-extend',
+                       {'replay': f'TypeBlocks.from_blocks(first {cut} blocks of layout {zoo.layout_str(lay)}); .extend/.append the rest (with zero-width arrays between); ._index, ._dtypes, ._shape',
+                        'kinds': kinds, 'rows': n, 'layout': zoo.layout_str(lay), 'cut': cut},
+                       m=f'state_eqb (M_extend (state_of {T0}) {R}) {obs}',
+                       s=f'columns_eqb {want} {got}',
+                       tags={'stratum': 'append'}, nontrivial=len(blocks) - cut > 0, key=f'A|{kinds}|{n}|{zoo.layout_str(lay)}|{cut}')
+
+
+def history_cases(ctx, kinds, n):
+    """The same logical frame reached by growing a FrameGO column by column / by extend, against direct construction."""
+    import static_frame as sf
+    m = len(kinds)
+    if m < 2:
+        return
+    cols = columns_for(kinds, n)
+    direct = build(kinds, n, canonical_layout(m))
+    routes = (('values', lambda f: f.values), ('T', lambda f: f.T), ('iter_array(1)', lambda f: f.iter_array(axis=1)),
+              ('iloc[0]', lambda f: f.iloc[0]), ('equals', lambda f: f.equals(direct, compare_dtype=True)),
+              ('sum1', lambda f: f.sum(axis=1)))
+    for how in ('setitem', 'extend'):
+        g = sf.FrameGO(index=ROW_LABELS[:n], name='fr')
+        if how == 'setitem':
+            for j in range(m):
+                g[COL_LABELS[j]] = cols[j]
+        else:
+            g.extend(direct.iloc[:, :1])
+            g.extend(direct.iloc[:, 1:])
+        numeric_mix = len({c.dtype for c in cols}) > 1
+        for name, fn in routes:
+            ctx.count('history')
+            o = observe(fn, g)
+            r = observe(fn, direct.to_frame_go())
+            tags = {'stratum': 'history', 'op': name}
+            if numeric_mix and name in ('values', 'T', 'iter_array(1)', 'iloc[0]', 'sum1'):
+                tags['finding'] = 'C03-go-append-row-dtype'
+            yield Case('api:history-vs-direct',
+                       {'replay': f"g = sf.FrameGO(index=...); g[c] = column for each column ({how}); {name} vs the same frame built at once", 'kinds': kinds, 'rows': n, 'how': how, 'op': name,
+                        'observed': short(o, 100)},
+                       py_fail=None if o == r else f'{name} of a FrameGO grown by {how} gives {short(o)}; the same frame built at once gives {short(r)}',
+                       tags=tags, nontrivial=numeric_mix, key=f'H|{kinds}|{n}|{how}|{name}')
+
+
+def malformed_cases(ctx):
+    """Malformed construction: the constructor's final coherence checks and from_blocks' row-count check must reject."""
+    import static_frame as sf
+    from static_frame.core.type_blocks import TypeBlocks
+    probes = []
+    for kinds, n in (('ii', 2), ('if', 3), ('iUU', 1), ('', 2), ('b', 0)):
+        m = len(kinds)
+        for lay in layouts(kinds, n):
+            cols = columns_for(kinds, n)
+            for di, dc in ((1, 0), (-1, 0), (0, 1), (0, -1), (1, 1)):
+                if n + di < 0 or m + dc < 0:
+                    continue
+                probes.append((kinds, n, lay, di, dc))
+    for kinds, n, lay, di, dc in probes:
+        ctx.count('malformed')
+        m = len(kinds)
+        cols = columns_for(kinds, n)
+
+        def make():
+            tb = TypeBlocks.from_blocks(zoo.blocks_from_columns(cols, lay)) if m else TypeBlocks.from_zero_size_shape((n, 0))
+            return sf.Frame(tb, index=range(n + di), columns=range(m + dc), own_data=True)
+        T = tb_lit(zoo.blocks_from_columns(cols, lay) if m else [])
+        txt, r = res_lit(make, lambda f: 'tt')
+        idx = lit.lst(['tt'] * (n + di))
+        cl = lit.lst(['tt'] * (m + dc))
+        yield Case('api:malformed-constructor',
+                   {'replay': f'sf.Frame(TypeBlocks.from_blocks(layout {zoo.layout_str(lay)} of {kinds!r} x {n} rows), index=range({n + di}), columns=range({m + dc}))', 'observed': txt},
+                   m=f'res_eqb (fun _ _ => true) (res_map (fun _ => tt) (mk_frame_checked (L:=unit) {idx} {cl} {T} {n})) {txt}',
+                   py_fail=None if isinstance(r, Exception) else 'a Frame whose index/columns length differs from its blocks was accepted',
+                   tags={'stratum': 'malformed'}, key=f'X|{kinds}|{n}|{zoo.layout_str(lay)}|{di}|{dc}')
+    # blocks with different row counts
+    for a, b_ in ((2, 3), (0, 1), (3, 0)):
+        ctx.count('malformed')
+        try:
+            TypeBlocks.from_blocks([np.arange(a), np.arange(b_ * 2).reshape(b_, 2)])
+            bad = 'blocks with different row counts were accepted'
+        except Exception as e:  # noqa
+            bad = None if lit.err_class(e) == 'ErrorInitTypeBlocks' else f'unexpected error class {lit.err_class(e)}'
+        yield Case('api:malformed-constructor', {'replay': f'TypeBlocks.from_blocks([np.arange({a}), np.arange({b_ * 2}).reshape({b_}, 2)])'},
+                   py_fail=bad, tags={'stratum': 'malformed'}, key=f'X|rows|{a}|{b_}')
+
+
 def cases(ctx):
-    return
-    yield
+    import warnings
+    with warnings.catch_warnings():
+        warnings.simplefilter('ignore')
+        with np.errstate(all='ignore'):
+            seen = set()
+            for kinds, n in frame_space(ctx):
+                if (kinds, n) in seen:
+                    continue
+                seen.add((kinds, n))
+                ctx.count('kinds:' + (''.join(sorted(set(kinds))) or '-'))
+                yield from layout_cases(ctx, kinds, n)
+                yield from readers_cases(ctx, kinds, n)
+                yield from model_cases(ctx, kinds, n)
+                if len(kinds) <= 4:
+                    yield from append_cases(ctx, kinds, n)
+                yield from history_cases(ctx, kinds, n)
+            yield from malformed_cases(ctx)
